@@ -138,6 +138,9 @@ type Check struct {
 	ChildEnv []string
 	// RaceAllow lists substrings of race reports that are harness artefacts (with reason).
 	RaceAllow map[string]string
+	// MemLimitMB caps the child's address space (RLIMIT_AS) so that an allocation bomb is an
+	// observed process death instead of an OOM of the sandbox (not for race binaries).
+	MemLimitMB int
 	// Extra lets a check add keys to coverage after aggregation.
 	Extra func(tier string, counters map[string]int64) map[string]interface{}
 }
@@ -195,6 +198,10 @@ func ChildMain(id, tier string, seed uint64, from, to int, out string) int {
 		return 2
 	}
 	defer f.Close()
+	if chk.MemLimitMB > 0 && !chk.Race {
+		lim := uint64(chk.MemLimitMB) << 20
+		syscall.Setrlimit(syscall.RLIMIT_AS, &syscall.Rlimit{Cur: lim, Max: lim})
+	}
 	if chk.Init != nil {
 		chk.Init()
 	}
